@@ -123,6 +123,19 @@ class Termination(explore.Scenario):
             if role == "server":
                 rt.stop("not-applicable")
             n.peer.wait_connect(timeout=5.0)
+            if P.get("early_consumer"):
+                # an application thread already waits for messages while the connection is still coming up
+                def early_consume():
+                    try:
+                        consumer_out["value"] = repr(d.get_message())[:60]
+                    except BaseException as e:  # noqa
+                        if isinstance(e, shims.sched.Abort):
+                            raise
+                        consumer_out["value"] = f"raised {type(e).__name__}"
+                    consumer_out["returned"] = True
+                early = T(target=early_consume, name="app-consumer")
+                early.start()
+                n.settle(0.3)
             if cause == "close-early":
                 n.settle(0.5)        # the state machine has left Closed (Wait-Conn-Ack): close() is accepted
             elif cause == "close-early-silent":
@@ -332,7 +345,7 @@ class Termination(explore.Scenario):
             "open_sockets": [repr(s) + ("(listening)" if s.listening else "") for s in socks if not s.closed],
             "registered": sum(len(sel._map) for sel in rt.net.selectors),
             "locks": rt.stuck_locks(),
-            "consumer_returned": consumer_out.get("returned") if consumer is not None else None,
+            "consumer_returned": consumer_out.get("returned") if (consumer is not None or P.get("early_consumer")) else None,
             "transport_released": (a.transport is None) if a is not None else None,
             "sender_returned": sender_out.get("returned") if sender is not None else None,
             "sender_leak": sender_out.get("leak"),
@@ -360,7 +373,7 @@ class Termination(explore.Scenario):
         if rt.verdict in ("not-applicable",):
             return []
         shape = f"{P['role']}:{P['life']}:{P['cause']}" + (":sctp" if P.get("transport") == "sctp" else "") + (
-            f":consumers{P['consumers']}" if P.get("consumers", 1) > 1 else "")
+            f":consumers{P['consumers']}" if P.get("consumers", 1) > 1 else "") + (":early-consumer" if P.get("early_consumer") else "")
         if P["life"] == "starting" and (rt.verdict == "handshake-failed" or not obs.get("reached")):
             died = [(t.name, type(t.exc).__name__) for t in rt.crashed_threads() if t.library]
             return [(f"C08:start-never-opens:{shape}", f"start() with a willing peer did not reach Open ({rt.verdict}); threads "
@@ -386,7 +399,7 @@ class Termination(explore.Scenario):
             errs.append((f"C08:sockets-not-released:{shape}", f"open sockets {after['open_sockets']}, {after['registered']} selector registrations"))
         if after["locks"]:
             errs.append((f"C08:lock-held:{shape}", f"locks still held: {after['locks']}"))
-        if after["consumer_returned"] is False or (P["life"] == "open-consumer" and not after["consumer_returned"]):
+        if after["consumer_returned"] is False or ((P["life"] == "open-consumer" or P.get("early_consumer")) and not after["consumer_returned"]):
             errs.append((f"C08:consumer-still-blocked:{shape}", "the application thread blocked in get_message() did not return"))
         if after.get("sender_returned") is not None and not after["sender_returned"]:
             errs.append((f"C08:sender-still-blocked:{shape}", "the application thread submitting messages did not return"))
@@ -427,6 +440,9 @@ def plan(tier):
     # two application threads blocked in get_message() when the connection ends
     for role, cause in (("server", "eof"), ("client", "close"), ("server", "dpr"), ("client", "rst")):
         yield dict(role=role, life="open-consumer", cause=cause, consumers=2), (1 if (role, cause) == ("server", "eof") or tier == "thorough" else 0)
+    # an application thread already waiting in get_message() when the connection attempt is refused
+    yield dict(role="client", life="connecting", cause="refuse", early_consumer=True), (1 if tier == "thorough" else 0)
+    yield dict(role="client", life="connecting", cause="refuse", early_consumer=True, transport="sctp"), 0
     for p in sctp_cases():
         key = (p["role"], p["life"], p["cause"])
         deep_sctp = {("client", "connecting", "refuse"), ("client", "open-outbound", "rst"), ("server", "open-idle", "eof"),
